@@ -235,6 +235,39 @@ where
     Ok(ids.len() as u64)
 }
 
+/// exactly as many distinct items as the id type has values: u8 with 256, u16 with 65536
+/// distinct items (the type is wide enough: ids 0..=MAX), spread over both sides with repeats
+pub fn check_ids_full() -> Result<u64, String> {
+    fn one<Int>(distinct: u32, name: &str) -> Result<u64, String>
+    where
+        Int: std::ops::Add<Output = Int> + From<u8> + Default + Copy + PartialEq + std::fmt::Debug + std::hash::Hash + Eq,
+    {
+        let old: Vec<u32> = (0..distinct / 2).chain(0..7).collect();
+        let new: Vec<u32> = (3..11).chain(distinct / 2..distinct).collect();
+        let r = subject(|| {
+            let h = IdentifyDistinct::<Int>::new(&old[..], 0..old.len(), &new[..], 0..new.len());
+            let oi: Vec<Int> = (0..old.len()).map(|i| h.old_lookup()[i]).collect();
+            let ni: Vec<Int> = (0..new.len()).map(|i| h.new_lookup()[i]).collect();
+            (oi, ni)
+        })
+        .map_err(|p| format!("IdentifyDistinct::<{}> with exactly {} distinct items (the type has exactly that many values): panic: {}", name, distinct, p))?;
+        let items: Vec<u32> = old.iter().chain(new.iter()).copied().collect();
+        let ids: Vec<Int> = r.0.iter().chain(r.1.iter()).copied().collect();
+        let mut by_item: std::collections::HashMap<u32, Int> = std::collections::HashMap::new();
+        let mut by_id: std::collections::HashMap<Int, u32> = std::collections::HashMap::new();
+        for (it, id) in items.iter().zip(ids.iter()) {
+            if *by_item.entry(*it).or_insert(*id) != *id || *by_id.entry(*id).or_insert(*it) != *it {
+                return Err(format!(
+                    "IdentifyDistinct::<{}> with exactly {} distinct items: ids are not a bijection of the items (item {} / id {:?})",
+                    name, distinct, it, id
+                ));
+            }
+        }
+        Ok(items.len() as u64)
+    }
+    Ok(one::<u8>(256, "u8")? + one::<u16>(65_536, "u16")? + one::<u16>(65_535, "u16")? + one::<u8>(255, "u8")?)
+}
+
 pub fn check_ids(old: &[u8], new: &[u8]) -> Result<u64, String> {
     let mut n = 0;
     for &(po, pn) in OFFSETS.iter() {
@@ -303,6 +336,17 @@ pub fn run(cfg: &RunCfg) -> CheckReport {
         });
     });
     rep.part("ids", json!({"scopes": space.describe(), "int_types": ["u8", "u16", "u32", "u64", "usize", "i32"], "offsets": format!("{:?}", OFFSETS)}), ex);
+    if !rep.has_violation() {
+        let ex = explore(cfg, 1, |_, acc| match check_ids_full() {
+            Ok(n) => {
+                acc.sample(json!({"ids_exactly_full": ["u8 x 256", "u16 x 65536", "u16 x 65535", "u8 x 255"]}));
+                acc.ok(true, n, n);
+                acc.ok(true, n, n + 1);
+            }
+            Err(e) => acc.violation(|| (json!({"ids_full": true}), e)),
+        });
+        rep.part("ids-exactly-as-many-distinct-items-as-values", json!({"cases": ["u8 x 256", "u16 x 65536", "u16 x 65535", "u8 x 255"]}), ex);
+    }
     if !rep.has_violation() {
         super::large::run_part(cfg, &mut rep, &ALGS, &|a| if a == Algorithm::Lcs { 300 } else { usize::MAX }, check_large);
     }
@@ -453,6 +497,9 @@ pub fn replay(case: &Value) -> Result<String, String> {
     }
     let old = parse_seq(case, "old")?;
     let new = parse_seq(case, "new")?;
+    if case.get("ids_full").is_some() {
+        return check_ids_full().map(|n| format!("holds; {} ids", n));
+    }
     if case.get("ids").is_some() {
         return check_ids(&old, &new).map(|n| format!("holds; {} ids", n));
     }
